@@ -44,6 +44,9 @@
 #ifndef H_TAPI
 #define H_TAPI 0       // 1: use the template overloads of the API (changeTo<T>(), isActive<T>(), plan.change<A, B>(), ...) instead of the StateID ones
 #endif
+#ifndef H_SDATA
+#define H_SDATA 0      // 1: every state object carries a data member (a callback counter) that the obs line reports: copies must carry it along
+#endif
 #ifndef H_HEADER
 #define H_HEADER <ffsm2/machine.hpp>
 #endif
@@ -221,7 +224,22 @@ static const void* g_ctx_addr[4] = {nullptr, nullptr, nullptr, nullptr};   // wh
 
 // ---- printing ----
 static std::string tstr(const Transition& t) {
-	if (!t) return "-";
+	// an invalid transition is "-"; if it still carries an origin or a payload (clear() resets the destination only) that is shown too
+	if (!t) {
+#if H_PAYLOAD
+		const bool pay = t.payload() != nullptr;
+#else
+		const bool pay = false;
+#endif
+		if (t.origin == ffsm2::INVALID_STATE_ID && !pay) return "-";
+		std::ostringstream o; o << "-[" << int(t.origin) << ":";
+#if H_PAYLOAD
+		o << payloadStr(t.payload());
+#else
+		o << "-";
+#endif
+		o << "]"; return o.str();
+	}
 	std::ostringstream o; o << int(t.origin) << ">" << int(t.destination) << ":";
 #if H_PAYLOAD
 	o << payloadStr(t.payload());
@@ -446,27 +464,33 @@ template <int W, typename> struct BaseOf;
 template <int W, int... Js> struct BaseOf<W, Seq<Js...>> { using Type = FSM::StateT<InjT<W, Js>...>; };
 template <int W> struct BaseOf<W, Seq<>> { using Type = FSM::State; };
 
+#if H_SDATA
+#define BUMP ++hits;
+#else
+#define BUMP
+#endif
 template <int I> struct St : BaseOf<I, MakeSeq<H_INJ_STATE>::Type>::Type {
 	using Base = typename BaseOf<I, MakeSeq<H_INJ_STATE>::Type>::Type;
+	mutable unsigned hits = 0;
 	using typename Base::GuardControl; using typename Base::PlanControl; using typename Base::FullControl; using typename Base::ConstControl;
 	CALLBACKS(H_DEFSTATE, I, -1)
 #if DEF(H_DEFSTATE, 0)
-	void entryGuard(GuardControl& c) { entryGuard_(c); }
+	void entryGuard(GuardControl& c) { BUMP entryGuard_(c); }
 #endif
 #if DEF(H_DEFSTATE, 1)
-	void enter(PlanControl& c) { enter_(c); }
+	void enter(PlanControl& c) { BUMP enter_(c); }
 #endif
 #if DEF(H_DEFSTATE, 2)
-	void reenter(PlanControl& c) { reenter_(c); }
+	void reenter(PlanControl& c) { BUMP reenter_(c); }
 #endif
 #if DEF(H_DEFSTATE, 3)
-	void preUpdate(FullControl& c) { preUpdate_(c); }
+	void preUpdate(FullControl& c) { BUMP preUpdate_(c); }
 #endif
 #if DEF(H_DEFSTATE, 4)
-	void update(FullControl& c) { update_(c); }
+	void update(FullControl& c) { BUMP update_(c); }
 #endif
 #if DEF(H_DEFSTATE, 5)
-	void postUpdate(FullControl& c) { postUpdate_(c); }
+	void postUpdate(FullControl& c) { BUMP postUpdate_(c); }
 #endif
 #if DEF(H_DEFSTATE, 6)
 	void preReact(const Ev& e, FullControl& c) { preReact_(e, c); }
@@ -481,10 +505,10 @@ template <int I> struct St : BaseOf<I, MakeSeq<H_INJ_STATE>::Type>::Type {
 	void query(Ev& e, ConstControl& c) const { query_(e, c); }
 #endif
 #if DEF(H_DEFSTATE, 10)
-	void exitGuard(GuardControl& c) { exitGuard_(c); }
+	void exitGuard(GuardControl& c) { BUMP exitGuard_(c); }
 #endif
 #if DEF(H_DEFSTATE, 11)
-	void exit(PlanControl& c) { exit_(c); }
+	void exit(PlanControl& c) { BUMP exit_(c); }
 #endif
 };
 
@@ -561,6 +585,15 @@ struct Logger : M::LoggerInterface {
 static Logger g_logger;
 #endif
 
+#if H_SDATA
+struct FHits { const FSM::Instance& m; unsigned r; template <typename T> void call() { r = m.access<T>().hits; } };
+template <int... Is> static std::string stateHitsImpl(const FSM::Instance& m, Seq<Is...>) {
+	std::string out; unsigned v[] = {0u, m.access<St<Is>>().hits...};
+	for (int k = 1; k <= H_N; ++k) { if (k > 1) out += ","; out += std::to_string(v[k]); }
+	return out;
+}
+static std::string stateHits(const FSM::Instance& m) { return stateHitsImpl(m, MakeSeq<H_N>::Type{}); }
+#endif
 static void obs(int inst, const FSM::Instance& m) {
 	std::ostringstream o; o << "obs " << inst << " active=" << int(m.activeStateId());
 #if H_MANUAL
@@ -594,6 +627,9 @@ static void obs(int inst, const FSM::Instance& m) {
 	}
 #else
 	o << " ser=";
+#endif
+#if H_SDATA
+	o << " cnts=" << stateHits(m);
 #endif
 	g_script.trace += o.str() + "\n";
 }
@@ -637,6 +673,14 @@ static FSM::Instance* make(int i, bool withLogger, int fill, const FSM::Instance
 	}
 #if H_CTX == 0
 	Ctx c; c.inst = i;
+	// a value context can be handed over as an lvalue or as an rvalue: two different constructors of the instance (odd fill bytes take the rvalue one)
+	if (fill & 1) {
+#if H_LOG
+		return new (g_mem[i]) FSM::Instance{static_cast<Ctx&&>(c), withLogger ? &g_logger : nullptr};
+#else
+		return new (g_mem[i]) FSM::Instance{static_cast<Ctx&&>(c)};
+#endif
+	}
 #if H_LOG
 	return new (g_mem[i]) FSM::Instance{c, withLogger ? &g_logger : nullptr};
 #else
